@@ -65,9 +65,7 @@ def _unhex(h):
 
 
 def _clone_env(R, env):
-    e2 = R.eval.EvalEnvironment()
-    e2._variables = dict(env._variables)
-    return e2
+    return core.clone_env(env)
 
 
 def classify(R, text, env, timeout=5.0):
